@@ -69,6 +69,15 @@ CHECKS = {
         "outside": "the 4-block lag of Tendermint itself (A-TM); reward amounts >= 2^120",
         "assumptions": A_COMMON + A_STORE + ["A-GOV: rewardPerPower < 2^64"],
     },
+    "C20": {
+        "quick": [
+            {"name": P + "types/crypto.ZZ_C20_Step", "reach": ["Step end", "Step save failed"], "bound": "one SignVote/SignProposal with symbolic height/round/type, block id in {nil,B1,B2}, timestamp in {t0,t0+1s} from an arbitrary last-sign state (none, or the record of an arbitrary earlier request); state file writable or not"},
+            {"name": P + "types/crypto.ZZ_C20_Two", "reach": ["Two end"], "bound": "two requests from the initial state with an optional reload of the state file in between"},
+        ],
+        "bounds": "one inductive step from an arbitrary valid last-sign record (covers histories of any length and restarts between requests, because the step shows in-memory record == durable record on every return); 2-request bounded run as cross-check",
+        "outside": "atomicity of tempfile.WriteFileAtomic itself; key-file encryption; POLRound of proposals fixed to -1",
+        "assumptions": ["the signing key is replaced by a counting identity-signer (crypto.PrivKey interface) so that signing events are observable", "A-CODEC for tmjson / protoio (canonical vote = tuple of its fields)", "tmtime.Now is a fixed instant (only used to blank timestamps before comparing)"],
+    },
     "C14": {
         "quick": [
             {"name": STAKE + "ZZ_C14_S1", "reach": ["S1 end"], "bound": "<=3 stakes, symbolic powers in (0,2^55], ratio in [0,100]"},
